@@ -600,7 +600,7 @@ func init() {
 			}
 			return out
 		}, Assumptions: assume})
-	register(&Check{ID: "C02", Rule: rule + "; plus a quorum call issued after a one-way message (unicast / multicast, with and without no-send-waiting) and a reset of the node's stream, which must return success when both nodes answer; plus the connection-fault instances of C07 for one failing node of two (crash, reset, crash+restart struck by an adversary thread, also while the request is still queued), where an Incomplete result must account for exactly the nodes that failed - never while a targeted node is still silent and the context alive",
+	register(&Check{ID: "C02", Rule: rule + "; plus C05's concurrent quorum calls on equal or overlapping configurations (every such call is over once all its nodes have answered); plus a quorum call issued after a one-way message (unicast / multicast, with and without no-send-waiting) and a reset of the node's stream, which must return success when both nodes answer; plus the connection-fault instances of C07 for one failing node of two (crash, reset, crash+restart struck by an adversary thread, also while the request is still queued), where an Incomplete result must account for exactly the nodes that failed - never while a targeted node is still silent and the context alive",
 		Gen: func(tier string) []Instance {
 			out := qcInstances(tier)
 			for _, kind := range []string{"QuorumCall", "QuorumCallAsync"} {
@@ -613,6 +613,13 @@ func init() {
 					for _, nsw := range []bool{false, true} {
 						out = append(out, Instance{Name: fmt.Sprintf("qc/%s/after-%s-nsw=%v-and-reset-of-node-2", kind, ow, nsw), Bound: 1, Root: afterOneWayResetScenario(kind, nsw, ow)})
 					}
+				}
+			}
+			for _, in := range xtalkInstances(tier) {
+				// concurrent quorum calls on equal / overlapping configurations (C05's family, quorum calls only)
+				if strings.HasPrefix(in.Name, "xtalk/QuorumCall") && !strings.Contains(in.Name, "Correctable") && !strings.Contains(in.Name, "GRPCCall") && !strings.Contains(in.Name, "cast") {
+					in.Name = "among-concurrent-calls/" + in.Name
+					out = append(out, in)
 				}
 			}
 			for _, in := range faultInstances(tier) {
